@@ -53,3 +53,14 @@ func (h HelperMap) Helpers() map[string]interface{} {
 func (h HelperMap) All() map[string]interface{} {
 	return h.helpers
 }
+
+// Get returns the helper registered under key, if there is one.
+func (h HelperMap) Get(key string) (interface{}, bool) {
+	if h.moot != nil {
+		h.moot.Lock()
+		defer h.moot.Unlock()
+	}
+
+	v, ok := h.helpers[key]
+	return v, ok
+}
